@@ -421,6 +421,14 @@ class ArgumentParser:
         # attached to it (e.g. -isystem/usr/include, -includeconfig.h).
         split_argv = []
         for arg in argv + self.compiler.options:
+            # A response file is not read: say so, rather than taking it
+            # for a source file.
+            if arg.startswith("@"):
+                log.warning(
+                    f"Response file '{arg[1:]}' is not read; "
+                    + "the options it contains are ignored.",
+                )
+                continue
             for flag in ["-isystem", "-include"]:
                 value = arg[len(flag) :]
                 if arg.startswith(flag) and value and value[0] != "-":
